@@ -13,6 +13,15 @@ package discovery
 //
 // VERIF_SRC=mock     graph source = the package's mock router (node replace fixed, see c20Router)
 // VERIF_SRC=builder  graph source = the real graph.Builder on a real graphdb (bolt)
+//
+// Backend faults: the chain backend answers every query of the funding
+// validation (GetBlockHash / GetBlock / GetUtxo) as the `fund` attribute of
+// the announcement says - success, a negative answer or an error.
+// Chain events (builder source): schedule entries "BC" / "BD" are handed to
+// the real graph.Builder as FilteredChainView notifications (a block at the
+// builder's height + 1 whose transactions spend the funding outputs of the
+// named channels / the block at the builder's height going stale).
+// The announcement_signatures path for our own channels is in c20_proof_test.go.
 
 import (
 	"bytes"
@@ -39,6 +48,7 @@ import (
 	"github.com/lightningnetwork/lnd/actor"
 	"github.com/lightningnetwork/lnd/batch"
 	"github.com/lightningnetwork/lnd/channeldb"
+	"github.com/lightningnetwork/lnd/chanstate"
 	"github.com/lightningnetwork/lnd/graph"
 	graphdb "github.com/lightningnetwork/lnd/graph/db"
 	"github.com/lightningnetwork/lnd/graph/db/models"
@@ -82,7 +92,8 @@ type c20Prelude struct {
 }
 
 const (
-	c20Height   = 1000 // best height known to the gossiper
+	c20Height   = 1000 // best height known to the gossiper (mock source)
+	c20Tip0     = 103  // best height of the chain behind the real graph.Builder (Gossip.tla: Tip0)
 	c20MaxTs    = 3
 	c20FundSats = 1000
 )
@@ -148,6 +159,34 @@ func c20Pub33(k *btcec.PrivateKey) (out [33]byte) {
 type c20Chain struct {
 	mu   sync.Mutex
 	mode map[uint32]string // block height -> funding mode
+	best int32             // height reported by GetBestBlock
+}
+
+var errC20Timeout = errors.New("rpc: request timed out")
+
+// c20FundKeys are the bitcoin keys of the channel confirmed at a height.
+func c20FundKeys(height uint32) (*btcec.PrivateKey, *btcec.PrivateKey, bool) {
+	switch height {
+	case 101, 102:
+		k := c20BtcKey[int(height)-100]
+		return k[0], k[1], true
+	case c20OwnHeight + 1, c20OwnHeight + 2:
+		k := c20OwnBtcKey(int(height) - c20OwnHeight)
+		return k[0], k[1], true
+	}
+	return nil, nil, false
+}
+
+// c20FundingTx is the transaction a healthy backend returns for the channel
+// confirmed at that height; its output 0 is the funding output.
+func c20FundingTx(height uint32) *wire.MsgTx {
+	k1, k2, ok := c20FundKeys(height)
+	if !ok {
+		return nil
+	}
+	tx := wire.NewMsgTx(2)
+	tx.TxOut = append(tx.TxOut, c20FundingOut(k1, k2))
+	return tx
 }
 
 func (c *c20Chain) setMode(ch int, mode string) {
@@ -155,9 +194,14 @@ func (c *c20Chain) setMode(ch int, mode string) {
 	c.mode[c20Scid(ch).BlockHeight] = mode
 	c.mu.Unlock()
 }
+func (c *c20Chain) setModeAt(height uint32, mode string) {
+	c.mu.Lock()
+	c.mode[height] = mode
+	c.mu.Unlock()
+}
 func (c *c20Chain) GetBestBlock() (*chainhash.Hash, int32, error) {
-	h := c20HashOf(c20Height)
-	return &h, c20Height, nil
+	h := c20HashOf(int64(c.best))
+	return &h, c.best, nil
 }
 func c20HashOf(height int64) chainhash.Hash {
 	var h chainhash.Hash
@@ -168,6 +212,15 @@ func c20HeightOf(h *chainhash.Hash) int64 {
 	return int64(h[1]) | int64(h[2])<<8 | int64(h[3])<<16
 }
 func (c *c20Chain) GetBlockHash(height int64) (*chainhash.Hash, error) {
+	c.mu.Lock()
+	mode := c.mode[uint32(height)]
+	c.mu.Unlock()
+	switch mode {
+	case "nohash": // the backend's negative answer (btcd / bitcoind wording)
+		return nil, errors.New("-1: Block number out of range")
+	case "hashfault":
+		return nil, errC20Timeout
+	}
 	h := c20HashOf(height)
 	return &h, nil
 }
@@ -185,22 +238,24 @@ func (c *c20Chain) GetBlock(hash *chainhash.Hash) (*wire.MsgBlock, error) {
 	c.mu.Lock()
 	mode := c.mode[height]
 	c.mu.Unlock()
-	ch := int(height) - 100
-	if ch != 1 && ch != 2 {
+	k1, _, ok := c20FundKeys(height)
+	if !ok {
 		return nil, fmt.Errorf("block %d not found", height)
 	}
 	tx := wire.NewMsgTx(2)
 	switch mode {
 	case "noblock":
 		return nil, fmt.Errorf("block %d not found", height)
+	case "blockfault":
+		return nil, errC20Timeout
 	case "noout":
 		// the transaction has no output at the advertised position
 	case "wrongkeys":
 		tx.TxOut = append(tx.TxOut, c20FundingOut(c20Key("otherbtc1"), c20Key("otherbtc2")))
 	case "halfwrongkeys":
-		tx.TxOut = append(tx.TxOut, c20FundingOut(c20BtcKey[ch][0], c20Key("otherbtc2")))
-	default: // ok, spent
-		tx.TxOut = append(tx.TxOut, c20FundingOut(c20BtcKey[ch][0], c20BtcKey[ch][1]))
+		tx.TxOut = append(tx.TxOut, c20FundingOut(k1, c20Key("otherbtc2")))
+	default: // ok, spent, utxo faults
+		tx = c20FundingTx(height)
 	}
 	return &wire.MsgBlock{Transactions: []*wire.MsgTx{tx}}, nil
 }
@@ -210,8 +265,13 @@ func (c *c20Chain) GetUtxo(op *wire.OutPoint, pkScript []byte, heightHint uint32
 	c.mu.Lock()
 	mode := c.mode[heightHint]
 	c.mu.Unlock()
-	if mode == "spent" {
+	switch mode {
+	case "spent":
 		return nil, btcwallet.ErrOutputSpent
+	case "utxofault":
+		return nil, errC20Timeout
+	case "utxonotfound": // neutrino: neither the output nor a spend of it was found
+		return nil, btcwallet.ErrOutputNotFound
 	}
 	return &wire.TxOut{Value: c20FundSats, PkScript: pkScript}, nil
 }
@@ -219,9 +279,28 @@ func (c *c20Chain) GetBlockHeader(*chainhash.Hash) (*wire.BlockHeader, error) {
 	return &wire.BlockHeader{}, nil
 }
 
-// c20View is an inert chainview.FilteredChainView for the real graph.Builder.
+// c20View is the chainview.FilteredChainView of the real graph.Builder: inert
+// but for the block notifications the executor sends (unbuffered channels).
 type c20View struct {
 	blocks, stale chan *chainview.FilteredBlock
+}
+
+// notify hands one notification to the builder's handler and returns once
+// the handler has finished with it: the handler is sequential, so it can
+// only receive the barrier (a block below its height, which it skips) after
+// it is done with the notification.
+func (v *c20View) notify(ch chan *chainview.FilteredBlock, b *chainview.FilteredBlock) bool {
+	for _, x := range []struct {
+		ch chan *chainview.FilteredBlock
+		b  *chainview.FilteredBlock
+	}{{ch, b}, {v.blocks, &chainview.FilteredBlock{Height: 0}}} {
+		select {
+		case x.ch <- x.b:
+		case <-time.After(c20Wait()):
+			return false
+		}
+	}
+	return true
 }
 
 func (v *c20View) FilteredBlocks() <-chan *chainview.FilteredBlock     { return v.blocks }
@@ -266,38 +345,66 @@ type c20Pending struct {
 }
 
 type c20Env struct {
-	t       testing.TB
-	src     string
-	g       *AuthenticatedGossiper
-	graph   graph.ChannelGraphSource
-	mockSrc *mockGraphSource
-	cg      *graphdb.ChannelGraph
-	chain   *c20Chain
-	closer  *mockScidCloser
-	bcast   chan lnwire.Message
-	peers   map[string]*mockPeer
-	sent    map[lnwire.Message]c20Msg // pointer identity of what we handed in
-	relayed []c20Msg
-	pending []c20Pending
-	stop    []func()
+	t        testing.TB
+	src      string
+	g        *AuthenticatedGossiper
+	graph    graph.ChannelGraphSource
+	mockSrc  *mockGraphSource
+	cg       *graphdb.ChannelGraph
+	builder  *graph.Builder
+	view     *c20View
+	chain    *c20Chain
+	closer   *mockScidCloser
+	notifier *mockNotifier
+	msgStore *mockMessageStore
+	wpsDB    kvdb.Backend
+	wps      *channeldb.WaitingProofStore
+	trickle  time.Duration
+	find     func(*btcec.PublicKey, lnwire.ChannelID) (*chanstate.OpenChannel, error)
+	bcast    chan lnwire.Message
+	peers    map[string]*mockPeer
+	sent     map[lnwire.Message]c20Msg // pointer identity of what we handed in
+	relayed  []c20Msg
+	pending  []c20Pending
+	stop     []func()
 }
 
-func c20NewEnv(t testing.TB, src string, trickle time.Duration, wpsDB *channeldb.DB) *c20Env {
+func c20NewEnv(t testing.TB, src string, trickle time.Duration, wpsDB kvdb.Backend) *c20Env {
+	return c20NewEnvWith(t, src, trickle, wpsDB, nil)
+}
+
+// c20NewEnvWith lets the caller adjust the environment (chain height,
+// channel database lookups) before the graph builder and the gossiper start.
+func c20NewEnvWith(t testing.TB, src string, trickle time.Duration, wpsDB kvdb.Backend,
+	prepare func(*c20Env)) *c20Env {
+
 	e := &c20Env{
 		t: t, src: src,
-		chain:  &c20Chain{mode: map[uint32]string{}},
-		closer: newMockScidCloser(false),
-		bcast:  make(chan lnwire.Message, 4096),
-		peers:  map[string]*mockPeer{},
-		sent:   map[lnwire.Message]c20Msg{},
+		chain:    &c20Chain{mode: map[uint32]string{}, best: c20Height},
+		closer:   newMockScidCloser(false),
+		notifier: newMockNotifier(),
+		msgStore: newMockMessageStore(),
+		wpsDB:    wpsDB,
+		trickle:  trickle,
+		find:     mockFindChannel,
+		bcast:    make(chan lnwire.Message, 4096),
+		peers:    map[string]*mockPeer{},
+		sent:     map[lnwire.Message]c20Msg{},
 	}
 	for name, k := range c20PeerKey {
 		e.peers[name] = &mockPeer{k.PubKey(), nil, nil, atomic.Bool{}}
 	}
-	notifier := newMockNotifier()
+	notifier := e.notifier
+	if src == "builder" {
+		e.chain.best = c20Tip0
+	}
+	if prepare != nil {
+		prepare(e)
+	}
 
 	switch src {
 	case "builder":
+		e.view = &c20View{make(chan *chainview.FilteredBlock), make(chan *chainview.FilteredBlock)}
 		backend, cleanup, err := kvdb.GetTestBackend(t.TempDir(), "cgr")
 		if err != nil {
 			t.Fatal(err)
@@ -323,7 +430,7 @@ func c20NewEnv(t testing.TB, src string, trickle time.Duration, wpsDB *channeldb
 			SelfNode:            route.Vertex(c20Pub33(c20Self)),
 			Graph:               cg,
 			Chain:               e.chain,
-			ChainView:           &c20View{make(chan *chainview.FilteredBlock), make(chan *chainview.FilteredBlock)},
+			ChainView:           e.view,
 			Notifier:            notifier,
 			ChannelPruneExpiry:  graph.DefaultChannelPruneExpiry,
 			GraphPruneInterval:  time.Hour,
@@ -336,7 +443,7 @@ func c20NewEnv(t testing.TB, src string, trickle time.Duration, wpsDB *channeldb
 		if err := b.Start(); err != nil {
 			t.Fatal(err)
 		}
-		e.graph, e.cg = b, cg
+		e.graph, e.cg, e.builder = b, cg, b
 		e.stop = append(e.stop, func() { _ = b.Stop(); _ = cg.Stop(); cleanup() })
 	default:
 		m := newMockRouter(nil, c20Height)
@@ -344,12 +451,23 @@ func c20NewEnv(t testing.TB, src string, trickle time.Duration, wpsDB *channeldb
 		e.graph = &c20Router{m}
 	}
 
-	// the waiting-proof store is only used by announcement signatures,
-	// which the remote path of this property never sends: one per binary
-	wps, err := channeldb.NewWaitingProofStore(wpsDB)
+	e.startGossiper()
+	return e
+}
+
+// startGossiper builds and starts a gossiper on the environment's graph
+// source, waiting-proof store backend and message store (also used to
+// restart it: everything the gossiper keeps in memory is lost, the stores
+// stay).
+func (e *c20Env) startGossiper() {
+	t, trickle, notifier := e.t, e.trickle, e.notifier
+	// the waiting-proof store is only used by announcement signatures: the
+	// traces of the remote path share one, the proof traces have their own
+	wps, err := channeldb.NewWaitingProofStore(e.wpsDB)
 	if err != nil {
 		t.Fatal(err)
 	}
+	e.wps = wps
 
 	selfDesc := &keychain.KeyDescriptor{PubKey: c20Self.PubKey(), KeyLocator: testKeyLoc}
 	e.g = New(Config{
@@ -380,7 +498,7 @@ func c20NewEnv(t testing.TB, src string, trickle time.Duration, wpsDB *channeldb
 		RebroadcastInterval:   rebroadcastInterval,
 		ProofMatureDelta:      0,
 		WaitingProofStore:     wps,
-		MessageStore:          newMockMessageStore(),
+		MessageStore:          e.msgStore,
 		RotateTicker:          ticker.NewForce(DefaultSyncerRotationInterval),
 		HistoricalSyncTicker:  ticker.NewForce(DefaultHistoricalSyncInterval),
 		NumActiveSyncers:      3,
@@ -399,7 +517,7 @@ func c20NewEnv(t testing.TB, src string, trickle time.Duration, wpsDB *channeldb
 		GetAlias: func(lnwire.ChannelID) (lnwire.ShortChannelID, error) {
 			return lnwire.ShortChannelID{}, fmt.Errorf("no peer alias")
 		},
-		FindChannel:  mockFindChannel,
+		FindChannel:  e.find,
 		ScidCloser:   e.closer,
 		BanThreshold: DefaultBanThreshold,
 	}, selfDesc)
@@ -407,7 +525,6 @@ func c20NewEnv(t testing.TB, src string, trickle time.Duration, wpsDB *channeldb
 		t.Fatal(err)
 	}
 	e.g.syncMgr.markGraphSynced()
-	return e
 }
 
 func (e *c20Env) close() {
@@ -673,6 +790,8 @@ type c20Graph struct {
 	St   [2]int    `json:"st"`   // premature updates of c not yet handed back for replay
 	Nch  int       `json:"nch"`  // channels in the graph, whatever their id
 	Nnd  int       `json:"nnd"`  // announced nodes in the graph, whatever their id
+	Tip  int       `json:"tip"`  // height the graph builder has processed (builder source; 0 otherwise)
+	Vx   [3]int    `json:"vx"`   // node n is a vertex of the graph store, announced or not (builder source)
 }
 
 func c20NodeIdx(pk [33]byte) int {
@@ -763,6 +882,15 @@ func (e *c20Env) project() c20Graph {
 		if err == nil && node != nil && node.HaveAnnouncement() {
 			g.Nd[n-1] = c20ModelTs(node.LastUpdate)
 		}
+		if e.cg != nil {
+			_, exists, err := e.cg.HasV1Node(ctx, route.Vertex(c20Pub33(c20NodeKey[n])))
+			if err == nil && exists {
+				g.Vx[n-1] = 1
+			}
+		}
+	}
+	if e.builder != nil {
+		g.Tip = int(e.builder.SyncedHeight())
 	}
 	if e.mockSrc != nil {
 		e.mockSrc.mu.Lock()
@@ -862,7 +990,7 @@ func (e *c20Env) send(msg lnwire.Message, peer lnpeer.Peer, scid *lnwire.ShortCh
 		before, _ = e.stashLen(*scid)
 	}
 	fut := e.g.ProcessRemoteAnnouncement(context.Background(), msg, peer)
-	deadline := time.Now().Add(10 * time.Second)
+	deadline := time.Now().Add(c20Wait())
 	for {
 		if res, es, done := c20Poll(fut, 200*time.Microsecond); done {
 			return res, es, fut
@@ -898,8 +1026,12 @@ type c20Line struct {
 
 // recv executes one message of a schedule and appends the trace lines.
 func (e *c20Env) recv(m c20Msg, out *[]c20Line) {
-	if m.T == "ZO" {
+	switch m.T {
+	case "ZO":
 		e.zombify(m, out)
+		return
+	case "BC", "BD":
+		e.chainEvent(m, out)
 		return
 	}
 	msg := c20Build(m)
@@ -946,7 +1078,7 @@ func (e *c20Env) recv(m c20Msg, out *[]c20Line) {
 				sort.Slice(mine, func(i, j int) bool { return mine[i].idx < mine[j].idx })
 				rs := make([]string, len(mine))
 				for i, p := range mine {
-					r, _, done := c20Poll(p.fut, 10*time.Second)
+					r, _, done := c20Poll(p.fut, c20Wait())
 					if !done {
 						r = "pending"
 					}
@@ -984,6 +1116,46 @@ func (e *c20Env) zombify(m c20Msg, out *[]c20Line) {
 	*out = append(*out, c20Line{A: "Zombify", M: m, Res: c20Res(err), Rs: []string{}, G: e.project(), Rel: e.rel()})
 }
 
+// chainEvent is the chain step of a schedule (builder source): "BC" is a
+// block at the builder's height + 1 whose transactions spend the funding
+// outputs of the channels coded in m.C, "BD" is the block at the builder's
+// height going stale.  Recorded once the builder's handler is done with it.
+func (e *c20Env) chainEvent(m c20Msg, out *[]c20Line) {
+	a := map[string]string{"BC": "Connect", "BD": "Disconnect"}[m.T]
+	res := "ok"
+	if e.builder == nil {
+		res = "nochain" // the mock graph source has no chain; such schedules are not sent to it
+	} else {
+		tip := e.builder.SyncedHeight()
+		var ok bool
+		if m.T == "BD" {
+			ok = e.view.notify(e.view.stale, &chainview.FilteredBlock{
+				Hash: c20HashOf(int64(tip)), Height: tip,
+			})
+		} else {
+			blk := &chainview.FilteredBlock{Hash: c20HashOf(int64(tip) + 1), Height: tip + 1}
+			blk.Hash[4] = 0xbc // another block than the one the funding transactions are in
+			spend := wire.NewMsgTx(2)
+			for c := 1; c <= 2; c++ {
+				if m.C&(1<<uint(c-1)) != 0 {
+					spend.AddTxIn(&wire.TxIn{PreviousOutPoint: wire.OutPoint{
+						Hash: c20FundingTx(c20Scid(c).BlockHeight).TxHash(), Index: 0,
+					}})
+				}
+			}
+			if len(spend.TxIn) > 0 {
+				blk.Transactions = []*wire.MsgTx{spend}
+			}
+			ok = e.view.notify(e.view.blocks, blk)
+		}
+		if !ok {
+			res = "timeout"
+		}
+	}
+	e.drain()
+	*out = append(*out, c20Line{A: a, M: m, Res: res, Rs: []string{}, G: e.project(), Rel: e.rel()})
+}
+
 func (e *c20Env) end(trickle time.Duration, out *[]c20Line) {
 	e.settle(trickle)
 	*out = append(*out, c20Line{A: "End", M: c20NoMsg, Rs: []string{}, G: e.project(), Rel: e.rel()})
@@ -991,7 +1163,7 @@ func (e *c20Env) end(trickle time.Duration, out *[]c20Line) {
 
 // runTrace executes one schedule on a fresh gossiper + graph.
 func c20RunTrace(t testing.TB, src, name string, sched []c20Msg, trickle time.Duration,
-	wpsDB *channeldb.DB) []c20Line {
+	wpsDB kvdb.Backend) []c20Line {
 
 	e := c20NewEnv(t, src, trickle, wpsDB)
 	defer e.close()
@@ -1000,6 +1172,9 @@ func c20RunTrace(t testing.TB, src, name string, sched []c20Msg, trickle time.Du
 		e.recv(m, &out)
 	}
 	e.end(trickle, &out)
+	for i := range out {
+		out[i].Src = src
+	}
 	return out
 }
 
@@ -1037,6 +1212,14 @@ func c20RunJobs(t *testing.T, src string, jobs []c20Job, w *verifkit.Writer, tri
 	}
 }
 
+// c20Wait bounds every wait for the real code (a future, a block
+// notification): generous, because the machine may be heavily loaded; a step
+// that exceeds it is recorded as "timeout" (a replayed update as "pending")
+// and makes the whole run inconclusive (vlib/props/c20.py), never a verdict.
+func c20Wait() time.Duration {
+	return time.Duration(verifkit.EnvInt("VERIF_WAIT_S", 120)) * time.Second
+}
+
 func c20Trickle() time.Duration {
 	return time.Duration(verifkit.EnvInt("VERIF_TRICKLE_MS", 5)) * time.Millisecond
 }
@@ -1051,13 +1234,22 @@ func TestVerifC20Gossip(t *testing.T) {
 	trickle := c20Trickle()
 
 	var jobs []c20Job
-	if dir := os.Getenv("VERIF_SCHED"); dir != "" {
+	// VERIF_SCHED_CHAIN: behaviours with chain events (builder source only)
+	for _, env := range []string{"VERIF_SCHED", "VERIF_SCHED_CHAIN"} {
+		dir := os.Getenv(env)
+		if dir == "" || (env == "VERIF_SCHED_CHAIN" && src != "builder") {
+			continue
+		}
 		for _, f := range verifkit.ListFiles(dir, "b_", ".ndjson") {
 			sched, err := verifkit.ReadNDJSONInto[c20Msg](f)
 			if err != nil {
 				t.Fatal(err)
 			}
-			jobs = append(jobs, c20Job{name: filepath.Base(f), sched: sched})
+			name := filepath.Base(f)
+			if env == "VERIF_SCHED_CHAIN" {
+				name = "chain:" + name
+			}
+			jobs = append(jobs, c20Job{name: name, sched: sched})
 		}
 	}
 	if dir := os.Getenv("VERIF_SWEEP"); dir != "" {
@@ -1068,6 +1260,13 @@ func TestVerifC20Gossip(t *testing.T) {
 		pres, err := verifkit.ReadNDJSONInto[c20Prelude](filepath.Join(dir, "preludes.ndjson"))
 		if err != nil {
 			t.Fatal(err)
+		}
+		if src == "builder" { // preludes with chain events
+			cpres, err := verifkit.ReadNDJSONInto[c20Prelude](filepath.Join(dir, "preludes_chain.ndjson"))
+			if err != nil {
+				t.Fatal(err)
+			}
+			pres = append(pres, cpres...)
 		}
 		// canonical order of the universe, independent of TLC's set order
 		sort.Slice(uni, func(i, j int) bool {
@@ -1168,6 +1367,7 @@ func TestVerifC20Flips(t *testing.T) {
 	e.recv(na, &out)
 	e.end(trickle, &out)
 	for _, l := range out {
+		l.Src = src
 		w.Emit(l)
 	}
 	t.Logf("c20 flips: %d lines, source %s", len(out), src)
